@@ -135,8 +135,8 @@ Qed.
 
 Theorem vol_meta_as_of f h1 h2 t w a :
   f_acc_hist f = true -> Forall (fun no => fst no <= t) h1 -> Forall (fun no => t < fst no) h2 -> w_pit w = Some t ->
-  vol_meta (run f (h1 ++ h2)) w a = acc_meta_cur (run f h1) a.
-Proof. intros Fh H1 H2 Hw. unfold vol_meta. rewrite Hw. apply account_metadata_as_of_total; assumption. Qed.
+  vol_meta f (run f (h1 ++ h2)) w a = acc_meta_cur (run f h1) a.
+Proof. intros Fh H1 H2 Hw. unfold vol_meta. rewrite Hw, Fh. apply account_metadata_as_of_total; assumption. Qed.
 
 Theorem agg_meta_as_of f h1 h2 t a :
   f_acc_hist f = true -> Forall (fun no => fst no <= t) h1 -> Forall (fun no => t < fst no) h2 ->
@@ -150,7 +150,7 @@ Proof. intros Fh. unfold agg_meta. rewrite Fh. destruct pit; reflexivity. Qed.
 (* ---------- 3. filtered listings ---------- *)
 Theorem read_volumes_q_rows f s w q u v :
   read_volumes f s w = Some u -> read_volumes_q f s w (Some q) 0 = Some v ->
-  forall kv, In kv v <-> In kv u /\ msat q (vol_meta s w (fst (fst kv))) = true.
+  forall kv, In kv v <-> In kv u /\ msat q (vol_meta f s w (fst (fst kv))) = true.
 Proof.
   intros Hu Hv kv. unfold read_volumes_q in Hv. rewrite Hu in Hv. cbn [group_volumes] in Hv. inversion Hv; subst v. apply filter_In.
 Qed.
@@ -253,9 +253,6 @@ Proof.
   apply G. reflexivity.
 Qed.
 
-(* so with the feature DISABLED the volumes dataset carries '{}' for every account as soon as the query has a window *)
-Theorem vol_meta_history_off f h w a : f_acc_hist f = false -> (w_pit w <> None \/ w_oot w <> None) -> vol_meta (run f h) w a = [].
-Proof.
-  intros Fh Hw. unfold vol_meta. rewrite (run_ahist_off f h Fh).
-  destruct (w_pit w); [reflexivity|]. destruct (w_oot w); [reflexivity|]. destruct Hw as [Hw|Hw]; contradiction Hw; reflexivity.
-Qed.
+(* with the feature DISABLED the volumes dataset carries the CURRENT metadata, with or without a window (fix f445e43) *)
+Theorem vol_meta_history_off f s w a : f_acc_hist f = false -> vol_meta f s w a = acc_meta_cur s a.
+Proof. intros Fh. unfold vol_meta. rewrite Fh. destruct (w_pit w), (w_oot w); reflexivity. Qed.
